@@ -1,4 +1,6 @@
+pub mod c10;
 pub mod c14;
+pub mod c15;
 pub mod generic;
 pub mod mt;
 
@@ -157,6 +159,8 @@ pub fn run(name: &str, args: &Args) -> Option<Report> {
             let (seed, start, iters) = (args.seed, args.start, args.iters);
             guarded(&mut rep, name, "C14", seed, start, |rep| c14::run(seed, start, iters, rep));
         }
+        "c15" => c15::run(args.seed, args.start, args.iters, &mut rep),
+        "c10" => c10::run(args.seed, args.start, args.iters, &mut rep),
         "c04" => {
             if args.start == 0 {
                 guarded(&mut rep, name, "C04", args.seed, 0, |rep| mt::c04_wrap_sweep(args.seed, rep));
